@@ -32,5 +32,20 @@ DELIVERABLES - create directory /tmp/seeded/{pid}-1/ (and -2, -3) each containin
 After producing each patch, reset the worktree (`git -C /tmp/wt/{pid} checkout -- . && git -C /tmp/wt/{pid} clean -fd -e target`) before starting the next so patches are independent. Leave the worktree clean at the end (but keep target/ for now). If you cannot find three, deliver fewer good ones rather than weak ones. Finish with a short plain-text summary of what you delivered."""
 
 
+ROUND2 = """
+
+ADDITIONAL INSTRUCTIONS FOR THIS ROUND: other volunteers have already delivered three changes for this property (you cannot see them).
+To diversify, (i) avoid the single most obvious function for this property when you can, (ii) prefer at least one change that spans two
+functions or two crates that each look fine alone, (iii) prefer at least one change in a data table / constant / default value or in a helper
+that several callers share, and (iv) prefer at least one change that only matters on an error or cancellation path. Number your deliverables
+{pid}-4, {pid}-5, {pid}-6 (directories /tmp/seeded/{pid}-4 etc.) instead of -1..-3. Never use `git stash`. In each demo/README.md put the exact run
+command on its own line starting with `cargo test` and the destination path of each demo file as a full `crates/...` path. Some test targets only
+compile when several packages are selected together because of feature unification (e.g. `cargo test -p ignore-files -p watchexec-filterer-ignore
+-p watchexec-filterer-globset --offline`, `cargo test -p watchexec-events --offline --features serde`); check what compiles on the unchanged HEAD first."""
+
+
 if __name__ == "__main__":
-    print(prompt(sys.argv[1]))
+    out = prompt(sys.argv[1])
+    if len(sys.argv) > 2 and sys.argv[2] == "2":
+        out += ROUND2.format(pid=sys.argv[1])
+    print(out)
